@@ -283,7 +283,7 @@ func genPosCase(t *rapid.T) posCase {
 }
 
 func TestC10_position(t *testing.T) {
-	runRapid(t, "C10/position", 5000, genPosCase, func(c posCase) error {
+	runRapid(t, "C10/position", 24000, genPosCase, func(c posCase) error {
 		stats.Sample("C10/position", c)
 		return checkC10(c)
 	})
